@@ -45,12 +45,12 @@ def rankSel (d : Doc) : Nat → Sel → Nat
 def rankSels (d : Doc) : Nat → List Sel → Nat
   | 0, _ => 2
   | _ + 1, [] => 2
-  | n + 1, x :: xs => max (rankSel d (n + 1) x) (rankSels d n xs)
+  | n + 1, x :: xs => max (rankSel d n x) (rankSels d n xs)
 end
 
 def computeRanks (d : Doc) : List (Nat × Nat) :=
   (nodes d).filterMap fun
-    | .selectionSet i sels => some (i, rankSels d ((nodes d).length + 2) sels)
+    | .selectionSet i sels => some (i, rankSels d (2 * (nodes d).length + 2) sels)
     | _ => none
 
 end PyGql.Validate
